@@ -124,6 +124,21 @@ def main():
             if rng.random() < 0.5:
                 phi = rng.choice([un("not", phi), un("alw", phi), un("evT", phi, 0, 1), bi("or", phi, atom()), un("neg", phi)])
             N = rng.choice([2, 3, 4])
+        uniform = False
+        if rng.random() < 0.1:
+            # one variable below two bounded operators whose windows are nested (or overlap, or are disjoint), joined by a Boolean
+            # connective: the intervals reported for the one name are united (seed r9 C20-2: the union kept the end of the later
+            # interval and cut off the enclosing one)
+            v0 = rng.choice(vs)
+            mk = lambda: pred(rng.choice(["ge", "gt", "le", "lt"]), var(v0), const(thr[v0] + rng.choice([0, 0, 1])))
+            (a1, b1), (a2, b2) = rng.choice([((0, 5), (2, 3)), ((0, 4), (1, 2)), ((1, 5), (2, 2)), ((0, 3), (1, 1)), ((0, 2), (3, 5)), ((0, 3), (2, 5))])
+            o1, o2 = rng.choice(["evT", "alwT"]), rng.choice(["evT", "alwT"])
+            l_, r_ = un(o1, mk(), a1, b1), un(o2, mk(), a2, b2)
+            phi = bi(rng.choice(["or", "and", "or", "implies"]), *((l_, r_) if rng.random() < 0.5 else (r_, l_)))
+            if rng.random() < 0.25:
+                phi = un("not", phi)
+            N = rng.choice([6, 7])
+            uniform = rng.random() < 0.7
         zig = False
         if rng.random() < 0.1:
             # an operator that is explained at several positions over an operand with several separate violating (satisfying)
@@ -148,6 +163,9 @@ def main():
         for v in vs_used:
             side = rng.choice([None, None, -1, 1])
             w[v] = [thr[v] + (rng.choice([-1, 0, 1]) if side is None or rng.random() < 0.15 else side) for _ in range(N)]
+            if uniform:
+                s0 = rng.choice([-1, 1])
+                w[v] = [thr[v] + 2 * s0] * N
             if zig:      # alternating runs around the threshold
                 s0 = rng.choice([-1, 1]); runs = []
                 while len(runs) < N:
